@@ -146,8 +146,25 @@ pub(crate) struct WorkerCounterGuard(WorkerCounter);
 impl Drop for WorkerCounterGuard {
     fn drop(&mut self) {
         let (waker_queue, counter) = &*self.0.inner;
+        #[cfg(actix_net_verif)]
+        let mut verif_notified = false;
+        #[cfg(actix_net_verif)]
+        crate::verif::emit(crate::verif::Ev::GuardDropBegin { worker: self.0.idx });
         if counter.dec() {
+            #[cfg(actix_net_verif)]
+            crate::verif::failpoint("worker:dec-wake");
             waker_queue.wake(WakerInterest::WorkerAvailable(self.0.idx));
+            #[cfg(actix_net_verif)]
+            {
+                verif_notified = true;
+            }
+        }
+        #[cfg(actix_net_verif)]
+        {
+            crate::verif::emit(crate::verif::Ev::GuardDropEnd {
+                worker: self.0.idx,
+                notified: verif_notified,
+            });
         }
     }
 }
@@ -176,6 +193,11 @@ impl WorkerHandleAccept {
     #[inline(always)]
     pub(crate) fn inc_counter(&self) -> bool {
         self.counter.inc()
+    }
+
+    #[cfg(actix_net_verif)]
+    pub(crate) fn verif_total(&self) -> usize {
+        self.counter.total()
     }
 }
 
@@ -479,6 +501,11 @@ impl ServerWorker {
     }
 
     fn restart_service(&mut self, idx: usize, factory_id: usize) {
+        #[cfg(actix_net_verif)]
+        crate::verif::emit(crate::verif::Ev::ServiceRestart {
+            worker: self.counter.idx,
+            token: idx,
+        });
         let factory = &self.factories[factory_id];
         trace!("service {:?} failed, restarting", factory.name(idx));
         self.services[idx].status = WorkerServiceStatus::Restarting;
@@ -578,6 +605,10 @@ impl Default for WorkerState {
 
 impl Drop for ServerWorker {
     fn drop(&mut self) {
+        #[cfg(actix_net_verif)]
+        crate::verif::emit(crate::verif::Ev::WorkerDrop {
+            worker: self.counter.idx,
+        });
         Arbiter::try_current().as_ref().map(ArbiterHandle::stop);
     }
 }
@@ -591,6 +622,12 @@ impl Future for ServerWorker {
         // `StopWorker` message handler
         if let Poll::Ready(Some(Stop { graceful, tx })) = this.stop_rx.poll_recv(cx) {
             let num = this.counter.total();
+            #[cfg(actix_net_verif)]
+            crate::verif::emit(crate::verif::Ev::WorkerStopSeen {
+                worker: this.counter.idx,
+                graceful,
+                in_flight: num,
+            });
             if num == 0 {
                 info!("shutting down idle worker");
                 let _ = tx.send(true);
@@ -654,6 +691,10 @@ impl Future for ServerWorker {
             WorkerState::Shutdown(ref mut shutdown) => {
                 // drop all pending connections in rx channel.
                 while let Poll::Ready(Some(conn)) = this.conn_rx.poll_recv(cx) {
+                    #[cfg(actix_net_verif)]
+                    crate::verif::emit(crate::verif::Ev::ShutdownDrained {
+                        worker: this.counter.idx,
+                    });
                     // WorkerCounterGuard is needed as Accept thread has incremented counter.
                     // It's guard's job to decrement the counter together with drop of Conn.
                     let guard = this.counter.guard();
@@ -703,6 +744,8 @@ impl Future for ServerWorker {
                 // handle incoming io stream
                 match ready!(this.conn_rx.poll_recv(cx)) {
                     Some(msg) => {
+                        #[cfg(actix_net_verif)]
+                        crate::verif::failpoint("worker:recv-call");
                         let guard = this.counter.guard();
                         let _ = this.services[msg.token]
                             .service
